@@ -99,6 +99,11 @@ type rcase struct {
 	PS       []pact   `json:"ps"`
 	SS       []string `json:"ss"`             // per channel opening: ok | conn | chan | confirm
 	Lazy     bool     `json:"lazy,omitempty"` // lazy delivery of confirmations (invisible to the model)
+	// LateMs > 0: a slow broker: every confirmation of what is published while batch 0 is being worked on is
+	// withheld and delivered, in tag order, LateMs after the first Publish (invisible to the model: only the
+	// moment of delivery differs).  Whatever the transporter does while it waits must not make confirmations
+	// of earlier publishes count for later ones.
+	LateMs int `json:"late_ms,omitempty"`
 }
 
 // ---- observations ----
@@ -177,6 +182,9 @@ type fake struct {
 	inner   backoff.BackOff
 	mu      sync.Mutex  // guards res and the fake's state against the harness cutting the case
 	stopped atomic.Bool // case cut: the fake answers nothing and records nothing any more
+	held    []*fakeConf // LateMs: confirmations withheld so far
+	lateSet bool        // LateMs: the delivery has been scheduled
+	lateOut bool        // LateMs: the withheld confirmations have been delivered
 }
 
 type fakeChan struct {
@@ -442,9 +450,30 @@ func (ch *fakeChan) Publish(exc, route string, msg []byte, opt wabbit.Option) er
 	ch.nextTag++
 	f.res.pubs = append(f.res.pubs, rec)
 	f.res.obs = append(f.res.obs, o)
-	if f.c.Lazy && (len(ch.queue) > 0 || len(ch.backlog) > 0) {
+	switch {
+	case f.c.LateMs > 0 && f.feeding == 0 && !f.lateOut:
+		f.held = append(f.held, cf)
+		if !f.lateSet {
+			f.lateSet = true
+			go func() {
+				time.Sleep(time.Duration(f.c.LateMs) * time.Millisecond)
+				f.mu.Lock()
+				defer f.mu.Unlock()
+				f.lateOut = true
+				if f.stopped.Load() {
+					return
+				}
+				for _, h := range f.held {
+					if !h.ch.closed {
+						h.ch.deliver(h)
+					}
+				}
+				f.held = nil
+			}()
+		}
+	case f.c.Lazy && (len(ch.queue) > 0 || len(ch.backlog) > 0):
 		ch.backlog = append(ch.backlog, cf)
-	} else {
+	default:
 		ch.deliver(cf)
 	}
 	return nil
@@ -520,7 +549,7 @@ func runImpl(c rcase) *result {
 		f.mu.Lock()
 		f.feeding = bi // the transporter is parked on inputChan
 		f.mu.Unlock()
-		timeout := time.After(blockWait)
+		timeout := time.After(blockWait + time.Duration(c.LateMs)*time.Millisecond)
 		taken := false
 		select {
 		case in <- b:
@@ -980,7 +1009,7 @@ func init() {
 				cases = append(cases, genCase(rng, "adversarial"))
 			}
 		}
-		rep.Rule = "corpus first, then seeded: 20% closure-only scripts (acks; every nack/publish error/silent loss closes the channel — the domain of C13_written_confirmed_partial), 10% closure-only with eager delivery where a nack or a publish error closes the channel while later confirmations of the same attempt are delivered and unread (the retry runs on a new channel), 20% nacks that leave the channel open, 15% publish errors that leave the channel open, 10% channel-opening failures (connection, channel, confirm.select) on top of mixed publish failures, 10% mixed, 15% adversarial (failure density 30-80%, 0-2 retries, empty batches, empty/odd table and operation strings, empty exchange). 1-4 batches of 0-5 messages, 0-4 retries, one third with lazy confirmation delivery. Non-trivial: at least one failed attempt and at least one written report or a give-up; distinct by (batches, scripts, retries)."
+		rep.Rule = "corpus first, then seeded: 20% closure-only scripts (acks; every nack/publish error/silent loss closes the channel — the domain of C13_written_confirmed_partial), 10% closure-only with eager delivery where a nack or a publish error closes the channel while later confirmations of the same attempt are delivered and unread (the retry runs on a new channel), 20% nacks that leave the channel open, 15% publish errors that leave the channel open, 10% channel-opening failures (connection, channel, confirm.select) on top of mixed publish failures, 10% mixed, 15% adversarial (failure density 30-80%, 0-2 retries, empty batches, empty/odd table and operation strings, empty exchange). 1-4 batches of 0-5 messages, 0-4 retries, one third with lazy confirmation delivery; one directed case with a SLOW broker (every confirmation of the first batch withheld for 6.5 s, then delivered in tag order). Non-trivial: at least one failed attempt and at least one written report or a give-up; distinct by (batches, scripts, retries)."
 		var sb strings.Builder
 		sb.WriteString("From Bifrost.model Require Import Base Rabbit.\nOpen Scope string_scope.\nDefinition cases : list rcase := [\n")
 		seen := map[string]bool{}
